@@ -97,9 +97,17 @@ func VerifC01_RegistryStep() {
 // answers in any order, any multiplicity, with unknown ids and arbitrarily late.
 func VerifC01_AdapterCorrelation() {
 	pipe := newVerifPipe()
+	pipe.coalesce = verifChoice(2) == 1 // responses arrive one per read, or back to back in one segment
 	ft := NewAdapterTransport(pipe).(*fAdapterTransport)
 	verifAssert(ft.Open() == nil, "open")
 	c1, c2 := NewFContext("a"), NewFContext("b")
+	if verifChoice(2) == 1 {
+		// one clone per outbound call of a context implemented outside the package
+		// (a decorator that only implements FContext), as the documentation recommends
+		base := verifForeignCtx{NewFContext("base")}
+		c1, c2 = Clone(base), Clone(base)
+		verifReach("foreign-clones")
+	}
 	if verifChoice(2) == 0 {
 		c1.SetTimeout(0) // no deadline
 	} else {
